@@ -661,12 +661,33 @@ struct BoxRun {
 // ================================================================================================
 // unique_ptr / unique_memory
 // ================================================================================================
-struct UptrRun {
-	using E = El<KF, 0>;
+// Re-entrant pointee: its destructor calls back into its owner and resets the unique_ptr that holds (held) it
+// ("unregister myself from my owner").  unique_ptr::reset stores the new pointer BEFORE it destroys the old object, so
+// the nested reset sees the new pointer (and destroys the new object); an implementation that destroys first would find
+// the dying object still installed and destroy/free it a second time.  The callback runs once per object and is skipped
+// while the owner itself is being destroyed (a nested reset on a unique_ptr under destruction double-deletes with
+// std::unique_ptr as well: outside the API).
+struct Re;
+static void *g_dying_owner = nullptr;
+struct Re : El<KF, 0> {
+	frg::unique_ptr<Re, LogAlloc> *owner = nullptr;
+	bool called = false;
+	Re(uint64_t x) : El<KF, 0>(x) {}
+	~Re();
+};
+inline Re::~Re() {
+	if(owner && !called && (void *)owner != g_dying_owner) { called = true; owner->reset(nullptr); }
+}
+
+template<typename E, bool RE>
+struct UptrRunT {
 	using H = frg::unique_ptr<E, LogAlloc>;
 	Vars<H> a;
 	static int bid(const void *p) { auto it = g_blockid.find(p); return it == g_blockid.end() ? -1 : it->second; }
+	// every pointee knows the variable that currently owns it (ownership moves by swap / move construction)
+	void fix_owners() { if constexpr (RE) for(int i = 0; i < NV; i++) if(a.alive[i] && a.at(i)->_ptr) a.at(i)->_ptr->owner = a.at(i); }
 	std::string state() {
+		fix_owners();
 		std::string s;
 		for(int i = 0; i < NV; i++) {
 			if(i) s += ' ';
@@ -677,13 +698,15 @@ struct UptrRun {
 		return s;
 	}
 	void check() {
-		// ownership is unique: no two live variables hold the same pointer; every owned block is allocated
+		// ownership is unique: no two live variables hold the same pointer; every owned block is allocated and holds a live object
 		for(int i = 0; i < NV; i++) for(int j = i + 1; j < NV; j++)
 			if(a.alive[i] && a.alive[j] && a.at(i)->_ptr && a.at(i)->_ptr == a.at(j)->_ptr)
 				vh::oracle("lifetime", "two unique_ptr variables own the same object");
 		for(int i = 0; i < NV; i++)
-			if(a.alive[i] && a.at(i)->_ptr && !vh::g_alloc.blocks.count(a.at(i)->_ptr))
-				vh::oracle("lifetime", "unique_ptr variable %d owns a block that is not allocated", i);
+			if(a.alive[i] && a.at(i)->_ptr) {
+				if(!vh::g_alloc.blocks.count(a.at(i)->_ptr)) vh::oracle("lifetime", "unique_ptr variable %d owns a block that is not allocated", i);
+				else if(!alive_at(static_cast<vh::TV *>(a.at(i)->_ptr))) vh::oracle("lifetime", "unique_ptr variable %d owns an object that is not alive", i);
+			}
 	}
 	void op(const std::vector<std::string> &t, OpOut &o) {
 		const std::string &c = t[0];
@@ -696,7 +719,9 @@ struct UptrRun {
 		else if(c == "massign") { int j = ai(t[2]); if(!a.live(i) || !a.live(j)) SKIP(); *a.at(i) = std::move(*a.at(j)); }
 		else if(c == "reset") { if(!a.live(i)) SKIP(); a.at(i)->reset(nullptr); }
 		else if(c == "resetnew") { if(!a.live(i)) SKIP(); uint64_t v = vh::u64(t[2]);
-			LogAlloc al; E *q = new (al.allocate(sizeof(E))) E(v); a.at(i)->reset(q); }
+			LogAlloc al; E *q = new (al.allocate(sizeof(E))) E(v);
+			if constexpr (RE) q->owner = a.at(i);
+			a.at(i)->reset(q); }
 		else if(c == "release") { if(!a.live(i)) SKIP();
 			E *q = a.at(i)->release();
 			if(a.at(i)->get() != nullptr) vh::oracle("lifetime", "unique_ptr still owns the object after release()");
@@ -706,11 +731,14 @@ struct UptrRun {
 		else if(c == "deref") { if(!a.live(i)) SKIP();
 			if(!a.at(i)->_ptr) { o.res = "ub"; o.asserted = true; }    // not executed: no assertion in the source
 			else { uint64_t x = (**a.at(i)).rd(); if((*a.at(i))->v != x) vh::oracle("lifetime", "unique_ptr * and -> disagree"); o.res = vres(x); } }
-		else if(c == "del") { if(!a.live(i)) SKIP(); a.at(i)->~H(); a.alive[i] = false; }
+		else if(c == "del") { if(!a.live(i)) SKIP(); g_dying_owner = a.at(i); a.at(i)->~H(); g_dying_owner = nullptr; a.alive[i] = false; }
 		else o.res = "badop";
+		fix_owners();
 	}
-	void finish() { for(int i = 0; i < NV; i++) if(a.alive[i]) { a.at(i)->~H(); a.alive[i] = false; } }
+	void finish() { for(int i = 0; i < NV; i++) if(a.alive[i]) { g_dying_owner = a.at(i); a.at(i)->~H(); g_dying_owner = nullptr; a.alive[i] = false; } }
 };
+using UptrRun = UptrRunT<El<KF, 0>, false>;
+using UptrReRun = UptrRunT<Re, true>;
 
 struct UmemRun {
 	using H = frg::unique_memory<LogAlloc>;
@@ -796,6 +824,7 @@ static void body(const vh::Lines &ls) {
 	else if(ty == "var") DISPATCH(VarRun, "variant");
 	else if(ty == "box") DISPATCH(BoxRun, "manual_box");
 	else if(ty == "uptr") drive<UptrRun>(ls, "unique_ptr");
+	else if(ty == "uptrre") drive<UptrReRun>(ls, "unique_ptr (re-entrant pointee)");
 	else if(ty == "umem") drive<UmemRun>(ls, "unique_memory");
 	else if(ty == "tup") { if(k == 'M') tuple_case<KM>(ls); else if(k == 'C') tuple_case<KC>(ls); else tuple_case<KF>(ls); }
 	else if(ty == "il") il_case(ls);
